@@ -447,6 +447,44 @@ def get_hotness() -> Any:
     return kit.HOTNESS
 
 
+class _Carrier:
+    """A real OS thread that carries one simulated worker per run and is then reused.  Fresh
+    threads would fault in a fresh stack every run (hundreds of pages: the evaluator recurses
+    deeply), and page faults are what does not scale in this sandbox."""
+
+    _free: List["_Carrier"] = []
+
+    def __init__(self) -> None:
+        self.job: Optional[Callable[[], None]] = None
+        self.go = threading.Semaphore(0)
+        self.finished = threading.Event()
+        self.thread = threading.Thread(target=self._loop, name="sim-carrier", daemon=True)
+        self.thread.start()
+
+    def _loop(self) -> None:
+        while True:
+            self.go.acquire()
+            job, self.job = self.job, None
+            try:
+                if job is not None:
+                    job()
+            finally:
+                self.finished.set()
+
+    def submit(self, job: Callable[[], None]) -> None:
+        self.finished.clear()
+        self.job = job
+        self.go.release()
+
+    @classmethod
+    def get(cls) -> "_Carrier":
+        return cls._free.pop() if cls._free else cls()
+
+    @classmethod
+    def put(cls, c: "_Carrier") -> None:
+        cls._free.append(c)
+
+
 class Worker:
     def __init__(self, tid: int, fn: Callable[[], None]) -> None:
         self.tid = tid
@@ -540,6 +578,21 @@ class Scheduler:
         ws = self._by_ident.get(threading.get_ident())
         if ws is None or ws.done or not ws.started:
             return None
+        # the callback's own frames must not be what exhausts the stack of the code under test
+        limit = sys.getrecursionlimit()
+        sys.setrecursionlimit(limit + 400)
+        try:
+            other = self._on_line_body(ws, code, line, tag)
+        finally:
+            # restored *before* the baton is handed on: the limit is process-wide, and no other
+            # thread may run (nor this one park) while it is raised
+            sys.setrecursionlimit(limit)
+        if other is not None:
+            other.sem.release()
+            ws.sem.acquire()
+        return None
+
+    def _on_line_body(self, ws: Worker, code: Any, line: int, tag: str) -> Any:
         if tag == "L":
             # lark is pre-emptible only while it parses on behalf of CELParser.parse (the shared
             # parser object used concurrently).  Building a parser is excluded: lark iterates over
@@ -548,10 +601,10 @@ class Scheduler:
                 return None
         else:
             ws.in_parse = code.co_qualname == "CELParser.parse"
-        self._yield(ws, code, line, tag)
-        return None
+        return self._yield(ws, code, line, tag)
 
-    def _yield(self, ws: Worker, code: Any, line: int, tag: str) -> None:
+    def _yield(self, ws: Worker, code: Any, line: int, tag: str) -> Any:
+        """Returns the worker to hand the baton to (the caller does the hand-over), or None."""
         ws.local_step += 1
         self.step += 1
         if self.step > self.step_cap:
@@ -581,8 +634,8 @@ class Scheduler:
             if hot:
                 self.hot_switches += 1
             self.current = nxt
-            other.sem.release()
-            ws.sem.acquire()
+            return other
+        return None
 
     # -- thread bodies ------------------------------------------------------------------------
     def _body(self, ws: Worker) -> None:
@@ -630,23 +683,25 @@ class Scheduler:
             _MON.register_callback(TOOL_ID, _MON.events.LINE, None)
 
     def _run(self, tids: List[int], timeout: float) -> None:
+        carriers = []
         for t in tids:
             w = self.workers[t]
-            w.thread = threading.Thread(target=self._body, args=(w,), name=f"sim-{t}", daemon=True)
-            w.thread.start()
+            c = _Carrier.get()
+            carriers.append(c)
+            c.submit(lambda w=w: self._body(w))
         first = self.policy.first(self, tids)
         self.switches.append([-1, -2, first, "start", "start"])
         self.current = first
         self.workers[first].sem.release()
         if not self._done.wait(timeout):
+            # (the carriers of this run stay out of the pool: they may never come back)
             raise kit.HarnessError(
                 f"scheduler: threads did not finish within {timeout}s "
                 f"(current={self.current}, step={self.step})"
             )
-        for t in tids:
-            th = self.workers[t].thread
-            if th is not None:
-                th.join(5.0)
+        for c in carriers:
+            if c.finished.wait(5.0):
+                _Carrier.put(c)
 
     # -- recorded schedule --------------------------------------------------------------------
     def explicit_switches(self) -> List[List[int]]:
